@@ -3160,7 +3160,7 @@ class sptensor:
         empty sparse tensor of shape (2, 2) with order F
         """
         if isinstance(other, (float, int, np.number)):
-            if not np.isfinite(other):
+            if not isinstance(other, int) and not np.isfinite(other):
                 # An implicit zero times an infinity or NaN is NaN as well
                 return (self.full() * other).to_sptensor()
             if self.nnz == 0:
@@ -3531,7 +3531,8 @@ class sptensor:
             # appropriate representation
             with np.errstate(divide="ignore", invalid="ignore"):
                 newvals = self.vals / other
-            if other == 0:
+            if other == 0 or other != other:  # noqa: PLR0124
+                # (0 / 0 and 0 / NaN are NaN: every implicit zero becomes NaN)
                 if self.nnz == 0:
                     nansubs = self.allsubs()
                     return ttb.sptensor(
